@@ -780,6 +780,14 @@ class Enumerator:
                     out.append((st2, exc))
                     continue
                 text = f"{render(recv)}.{tgt.attr}"
+                # locals that hold an earlier read of this attribute keep the *old* value: freeze them before the store
+                for k, t in list(st2.env.items()):
+                    if "." in k or isinstance(t, (ast.FunctionDef, ast.Constant)) or k == "self":
+                        continue
+                    if isinstance(t, ast.Name):
+                        continue
+                    if text in render(t):
+                        st2.env[k] = ast.Name(f"{k}'", ast.Load())
                 self._kill_atoms(st2, text)
                 if isinstance(term, (ast.Constant, ast.Name)) and not aug:
                     st2.env[text] = term  # only plain values flow through attributes (identity matters for anything computed)
